@@ -115,15 +115,19 @@ class FaultyPool:
     def __init__(self, pool, size):
         self.pool = pool
         self.size = size
+        self.closed = False
 
     def map(self, func, tasks, **kw):
+        if self.closed:
+            raise ValueError("Pool not running")   # what a real pool does once it has been closed
         hit("pool.map")
         out = list(self.pool.map(func, tasks, **kw))
         hit("pool.map:after")
         return out
 
     def close(self):
-        pass
+        # the pool belongs to the user: the sampler has no business closing it
+        self.closed = True
 
 
 @contextlib.contextmanager
